@@ -15,11 +15,16 @@ pub mod c12;
 pub mod texts;
 pub mod explore;
 pub mod c05;
+pub mod c06;
 pub mod c07;
 pub mod c08;
 pub mod c09;
 pub mod c10;
+pub mod c13;
+pub mod c14;
 pub mod c16;
+pub mod c17;
+pub mod c18;
 pub mod common;
 
 pub struct Ctx {
@@ -346,6 +351,20 @@ pub fn workload(name: &str, tier: &str) -> Option<Box<dyn Workload>> {
     let quick = tier == "quick";
     match name {
         "c16" => Some(Box::new(c16::Positions::new(quick))),
+        "c13" => Some(Box::new(c13::Workspaces {
+            n: if quick { 600 } else { 12_000 },
+        })),
+        "c17" => Some(Box::new(c17::Navigation {
+            n: if quick { 48 } else { 1500 },
+            stride: 1,
+        })),
+        "c18" => Some(Box::new(c18::Renames {
+            n: if quick { 64 } else { 1000 },
+        })),
+        "c14" => Some(Box::new(c14::Bases {
+            n: if quick { 3000 } else { 100_000 },
+            cli_every: if quick { 15 } else { 100 },
+        })),
         "explore" => Some(Box::new(c01::Explore {
             n: if quick { 40_000 } else { 1_000_000 },
         })),
@@ -361,6 +380,13 @@ pub fn workload(name: &str, tier: &str) -> Option<Box<dyn Workload>> {
         })),
         "c05" => Some(Box::new(c05::Rewrites {
             n: if quick { 3000 } else { 60_000 },
+        })),
+        "c06proc" => Some(Box::new(c06::Processes {
+            n: if quick { 300 } else { 5000 },
+            runs: if quick { 8 } else { 32 },
+        })),
+        "c06inproc" => Some(Box::new(c06::InProcess {
+            n: if quick { 3000 } else { 100_000 },
         })),
         "c07unify" => Some(Box::new(c07::Unify::new(quick))),
         "c07inv" => Some(Box::new(c07::Invariance {
@@ -397,11 +423,16 @@ pub fn workload(name: &str, tier: &str) -> Option<Box<dyn Workload>> {
 pub fn run_check(ctx: &Ctx) -> i32 {
     match ctx.id.as_str() {
         "C16" => c16::run(ctx),
+        "C13" => c13::run(ctx),
+        "C14" => c14::run(ctx),
+        "C17" => c17::run(ctx),
+        "C18" => c18::run(ctx),
         "C01" => c01::run(ctx),
         "C02" => c02::run(ctx),
         "C03" => c03::run(ctx),
         "C04" => c04::run(ctx),
         "C05" => c05::run(ctx),
+        "C06" => c06::run(ctx),
         "C07" => c07::run(ctx),
         "C08" => c08::run(ctx),
         "C09" => c09::run(ctx),
